@@ -25,6 +25,9 @@ type PlanC16 struct {
 	RecvCtxMs   int       `json:"recv_ctx_ms"`  // per-receive context deadline, 0 = 10 min
 	RecvRetry   int       `json:"recv_retry"`   // how often Receive is called again after a receive context expired
 	Trace       bool      `json:"trace"`        // the transport is configured with a TraceWriter
+	// CtxAtLast (slow writer only): each Receive gets a context whose deadline is the very instant
+	// at which the chunk holding the envelope's last byte arrives
+	CtxAtLast bool `json:"ctx_at_last,omitempty"`
 }
 
 const minEnvLen = 40
@@ -131,6 +134,12 @@ func genC16(t *simrt.Tape, tier string) interface{} {
 		p.WriteGapMs = []int{10, 300, 1000}[t.Draw(3)]
 		p.RecvCtxMs = []int{5, 200, 700, 2500}[t.Draw(4)]
 		p.RecvRetry = 1 + t.Draw(40)
+		if t.Draw(2) == 0 {
+			p.CtxAtLast = true
+			p.RecvCtxMs = 0
+			p.PauseMs = 0
+			p.Faults = NoFaults()
+		}
 	}
 	return p
 }
@@ -212,6 +221,40 @@ func runC16(w *World, pi interface{}) {
 		dataDir = raw.Link().BA
 	}
 	w.Armed = true
+	// when the chunk holding the closing brace of each envelope reaches the receiver (slow writer)
+	var lastAt []time.Duration
+	if p.CtxAtLast && len(p.WriteChunks) > 0 && p.WriteGapMs > 0 && !p.Glue {
+		t0 := simrt.Now()
+		total := 0
+		for _, f := range frames {
+			total += len(f) + 1
+		}
+		var ends []int // stream offset one past each chunk
+		off, i := 0, 0
+		for off < total {
+			k := p.WriteChunks[i%len(p.WriteChunks)]
+			i++
+			if k < 1 {
+				k = 1
+			}
+			if off+k > total {
+				k = total - off
+			}
+			off += k
+			ends = append(ends, off)
+		}
+		brace := 0
+		for _, f := range frames {
+			brace += len(f) // offset one past the closing brace of this envelope
+			for n, e := range ends {
+				if e >= brace {
+					lastAt = append(lastAt, t0+time.Duration(n*p.WriteGapMs)*time.Millisecond)
+					break
+				}
+			}
+			brace++ // the newline
+		}
+	}
 	// raw writer
 	go func() {
 		stream := strings.Join(frames, "\n") + "\n"
@@ -260,6 +303,12 @@ func runC16(w *World, pi interface{}) {
 		if p.RecvCtxMs > 0 {
 			tmo = time.Duration(p.RecvCtxMs) * time.Millisecond
 		}
+		if i < len(lastAt) {
+			if d := lastAt[i] - simrt.Now(); d > 0 {
+				tmo = d // the context ends the instant the envelope becomes complete
+				w.Count("receive-deadline-at-last-chunk")
+			}
+		}
 		rctx, rcancel := context.WithTimeout(context.Background(), tmo)
 		env, err := rx.Receive(rctx)
 		expired := rctx.Err() != nil
@@ -269,7 +318,7 @@ func runC16(w *World, pi interface{}) {
 		if consumed > L {
 			w.Violate("C16.receive-consumed-more-than-limit", sig(i), "Receive #%d consumed %d bytes from the connection with a read limit of %d (envelope sizes %v)", i, consumed, L, p.Sizes)
 		}
-		if err != nil && expired && p.RecvCtxMs > 0 {
+		if err != nil && expired && (p.RecvCtxMs > 0 || len(lastAt) > 0) {
 			// the receive context ran out, which says nothing about the envelope's size; the
 			// caller may call Receive again on the same transport
 			w.Count("receive-context-expired")
@@ -322,6 +371,6 @@ func init() {
 		MaxSim: 3 * time.Hour,
 		Rule: "plans = (read limit in {256,1000,4096,65536, default 8 MiB in the thorough tier}, 1-12 valid envelopes with exact encoded sizes drawn around the boundaries " +
 			"tiny / limit/2 / limit-2.. / limit-1,limit,limit+1 / between / 2*limit-1..+1 / above 2*limit / 10*limit at every position, receiver = accepted or dialled transport, with or without a TraceWriter, " +
-			"fragmentation mode, write chunking or a single glued write, late reader for coalescing, a slow writer against a polling receiver that calls Receive again after each expired receive context); non-trivial = the real transport connected and at least one Receive ran; distinct = distinct (plan JSON, event-log hash)",
+			"fragmentation mode, write chunking or a single glued write, late reader for coalescing, a slow writer against a polling receiver that calls Receive again after each expired receive context, or against receive contexts that end the very instant the envelope becomes complete); non-trivial = the real transport connected and at least one Receive ran; distinct = distinct (plan JSON, event-log hash)",
 	})
 }
